@@ -146,6 +146,11 @@ class AGen:
         nsrc = 2 if kind == "zip" else (3 if kind == "zip3" else 1)
         self.nextval = 0
         pe = r.choice([0.3, 0.5, 0.7])
+        # timing nodes: half of the cases let elements trickle in (a short advance after every emit), so that timers are
+        # armed, re-armed and hit while partitions / windows are partly filled
+        trickle = kind in ("partition", "timed_window", "timed_window_unique", "rate_limit", "delay") and r.random() < 0.5
+        if trickle and kind == "partition" and sp.get("timeout") is not None:
+            sp["n"] = r.choice([3, 4, 5])
         pmix = r.choice([0.0, 0.0, 0.15, 0.3]) if self.mix else 0.0
         for _ in range(n):
             u = r.random()
@@ -179,6 +184,8 @@ class AGen:
                         nrc += 1
                 self.nextval += 1
                 acts.append(["emit", r.randrange(nsrc), val_to_json(self.nextval), md])
+                if trickle:
+                    acts.append(["adv", r.choice([1, 1, 2, 3])])
             elif u < pe + (1 - pe) * 0.55:
                 acts.append(["ack"])
             elif kind == "map_async" and r.random() < 0.6:
